@@ -600,28 +600,41 @@ pub fn server_config(cfg: &Cfg, string_ids: bool) -> ServerConfig {
 }
 
 pub fn server_config_with_ids(cfg: &Cfg, string_ids: bool, forced: Arc<Mutex<std::collections::VecDeque<Value>>>) -> ServerConfig {
-	let mut b = ServerConfig::builder()
-		.max_request_body_size(cfg.max_request)
-		.max_response_body_size(cfg.max_response)
-		.max_connections(cfg.max_connections)
-		.max_subscriptions_per_connection(cfg.max_subs)
-		.set_message_buffer_capacity(cfg.buffer_capacity.max(1))
-		.set_id_provider(CounterIds(AtomicU64::new(1000), string_ids, forced, cfg.id_escapes))
-		.set_batch_request_config(match cfg.batch {
-			BatchCfg::Disabled => BatchRequestConfig::Disabled,
-			BatchCfg::Limit(n) => BatchRequestConfig::Limit(n),
-			BatchCfg::Unlimited => BatchRequestConfig::Unlimited,
-		});
+	type B = jsonrpsee_server::ServerConfigBuilder;
+	// every setter of the builder is independent of the others: they are applied in an order that depends on the
+	// configuration itself (a rotation of the list below), so no setter may reset what another one has set
+	let mut setters: Vec<Box<dyn FnOnce(B) -> B>> = vec![];
+	let (max_request, max_response, max_connections, max_subs, buf) = (cfg.max_request, cfg.max_response, cfg.max_connections, cfg.max_subs, cfg.buffer_capacity.max(1));
+	setters.push(Box::new(move |b: B| b.max_request_body_size(max_request)));
+	setters.push(Box::new(move |b: B| b.max_response_body_size(max_response)));
+	setters.push(Box::new(move |b: B| b.max_connections(max_connections)));
+	setters.push(Box::new(move |b: B| b.max_subscriptions_per_connection(max_subs)));
+	setters.push(Box::new(move |b: B| b.set_message_buffer_capacity(buf)));
+	let ids = CounterIds(AtomicU64::new(1000), string_ids, forced, cfg.id_escapes);
+	setters.push(Box::new(move |b: B| b.set_id_provider(ids)));
+	let batch = match cfg.batch {
+		BatchCfg::Disabled => BatchRequestConfig::Disabled,
+		BatchCfg::Limit(n) => BatchRequestConfig::Limit(n),
+		BatchCfg::Unlimited => BatchRequestConfig::Unlimited,
+	};
+	setters.push(Box::new(move |b: B| b.set_batch_request_config(batch)));
 	if let Some((interval, inactive)) = cfg.ping {
-		b = b.enable_ws_ping(jsonrpsee_server::PingConfig::new().ping_interval(Duration::from_secs(interval)).inactive_limit(Duration::from_secs(inactive)).max_failures(1));
+		setters.push(Box::new(move |b: B| b.enable_ws_ping(jsonrpsee_server::PingConfig::new().ping_interval(Duration::from_secs(interval)).inactive_limit(Duration::from_secs(inactive)).max_failures(1))));
 	}
 	if let Some((interval, inactive_ms, max_failures)) = cfg.ping_fine {
-		b = b.enable_ws_ping(jsonrpsee_server::PingConfig::new().ping_interval(Duration::from_secs(interval)).inactive_limit(Duration::from_millis(inactive_ms)).max_failures(max_failures));
+		setters.push(Box::new(move |b: B| b.enable_ws_ping(jsonrpsee_server::PingConfig::new().ping_interval(Duration::from_secs(interval)).inactive_limit(Duration::from_millis(inactive_ms)).max_failures(max_failures))));
 	}
 	match cfg.mode {
-		1 => b = b.http_only(),
-		2 => b = b.ws_only(),
+		1 => setters.push(Box::new(|b: B| b.http_only())),
+		2 => setters.push(Box::new(|b: B| b.ws_only())),
 		_ => {}
+	}
+	let n = setters.len();
+	let rot = (cfg.max_request as usize ^ cfg.max_response as usize ^ cfg.max_connections as usize ^ cfg.max_subs as usize ^ cfg.buffer_capacity as usize ^ cfg.mode as usize) % n;
+	setters.rotate_left(rot);
+	let mut b = ServerConfig::builder();
+	for s in setters {
+		b = s(b);
 	}
 	b.build()
 }
